@@ -1,7 +1,7 @@
 """C13 — Generate fails only when the recipe cannot be honoured: an error, never a panic."""
 import math
 from fractions import Fraction
-from .. import core, chargen
+from .. import core, chargen, wlgen
 from ..spgref import Recipe, f32_from_bits
 from .c03 import compare_recipes, kv
 
@@ -52,6 +52,17 @@ def correspondence(ctx):
             ctx.count("outcome_" + " ".join(a.split(" ")[:2]) if not a.startswith("ok") else "outcome_ok")
     rc = [("recipe " + r.tokens(), {"recipe": r.to_json(), "_recipe": r}) for r in recs if r.length <= 30]
     ctx.recipe_results = compare_recipes(ctx, rc)
+    # wordlist recipes: nil list, zero-valued list, non-positive lengths, ordinary ones
+    wcases = wlgen.gen_cases(ctx, 80 if ctx.tier == "quick" else 800)
+    for l in ("nil", "zero", ["a"], ["one", "two", "three"]):
+        for length in (3, 1, 0, -1):
+            for sep in (("char", "-"), ("preset", "SFDigits1")):
+                wcases.append({"list": l, "length": length, "sep": sep, "cap": "one", "budget": chargen.DEFAULT_BUDGET,
+                               "words": [1, 2, 3, 4, 5, 6, 7, 8, 9, 10], "meta": {"list": l, "length": length, "special": True}})
+    ctx.wl_results = wlgen.run_wlgen_family(ctx, wcases)
+    for c, a, b in ctx.wl_results:
+        if c["list"] in ("nil", "zero") or c["length"] < 1:
+            ctx.nontrivial.add(("wl", str(c["list"]), c["length"], c["sep"][0]))
 
 
 def oracle(ctx, deep):
@@ -111,6 +122,24 @@ def oracle(ctx, deep):
         else:
             if head[0] != "panic":
                 ctx.violations.append(dict(base, finding_key="C13-decision", what="the random source ran dry but Generate returned %s" % " ".join(head[:2])))
+    for c, a, b in getattr(ctx, "wl_results", []):
+        if a is None:
+            continue
+        order, titles, rest = wlgen.parse_pre(a)
+        head = rest.split(" ")
+        line = wlgen.wlgen_line(c["list"], c["length"], c["sep"], c["cap"], c["budget"], c["words"])
+        base = {"case": c["meta"], "line": line, "observed": a}
+        if head[0] == "panic" and head[1] != "prng":
+            ctx.violations.append(dict(base, finding_key="C13-panic", what="WLRecipe.Generate panicked (%s)" % head[1]))
+        elif "PASSWORD-WITH-ERROR" in a or "NIL-PASSWORD-WITHOUT-ERROR" in a:
+            ctx.violations.append(dict(base, finding_key="C13-both", what="Generate returned an error together with a password, or neither"))
+        else:
+            empty = c["list"] in ("nil", "zero")
+            want = "nolist" if empty else ("badlength" if c["length"] < 1 else None)
+            if want and not (head[0] == "err" and head[1] == want):
+                ctx.violations.append(dict(base, finding_key="C13-decision", what="expected the %s error, got %s" % (want, " ".join(head[:2]))))
+            if not want and head[0] == "err":
+                ctx.violations.append(dict(base, finding_key="C13-decision", what="a wordlist recipe that can be honoured was refused: %s" % head[1]))
     # SuccessProbability() = exact fraction
     for meta, a, b in getattr(ctx, "recipe_results", []):
         if a is None or a.startswith("panic"):
